@@ -248,6 +248,11 @@ def run(tier: str, seed: int, rep: Report, model: Model) -> dict:
             if o.get("input_dict_untouched") is False:
                 rep.violation({"what": "model_validate modified the caller's dict", "step": i, **rec})
             ref = GC.reference({"params": [{"name": f["name"], "hint": f["hint"]} for f in h["fields"]], "args": op["values"], "provider": None})
+            if ref["v"] == "undefined" and ref.get("kind") in ("ValueError", "ZeroDivisionError", "OverflowError") and o["v"] == "crash":
+                # an expression axis without arithmetic value: the escaping arithmetic exception is the known finding K1 (C08);
+                # pydantic re-wraps a ValueError raised in a validator as its ValidationError - not compared with the model's class
+                rep.count("arithmetically_undefined_not_compared")
+                continue
             if o["v"] == "accept" and ref["v"] not in ("accept", "unknown"):
                 rep.violation({"what": "a validation was accepted although the fields are inconsistent (in field order, fresh context)", "step": i, "reference": ref, **rec})
             elif ref["v"] == "accept" and o["v"] != "accept":
